@@ -345,6 +345,40 @@ def _readback(ctx, rng, case, post, ds, chains, feats):
                               'pointwise_wrong_columns',
                               {'chain': c, 'draw': d}, feats)
                 return
+    # the dataset may store the parameters under other names (param_map:
+    # likelihood name -> dataset name), also names that are likelihood
+    # names of OTHER parameters (exchanged names, chains of names)
+    lnames = list(ll.get_parameter_names())
+    if len(set(lnames)) == len(lnames) and len(lnames) >= 2 and \
+            all(n_ in ds2 for n_ in lnames):
+        a_, b_ = [lnames[i] for i in rng.permutation(len(lnames))[:2]]
+        kind_m = ['exchange', 'chain', 'fresh'][int(rng.integers(3))]
+        if kind_m == 'exchange':
+            ds3 = ds2.rename({a_: 'tmp name'}).rename({b_: a_}).rename(
+                {'tmp name': b_})
+            pmap = {a_: b_, b_: a_}
+        elif kind_m == 'chain':
+            ds3 = ds2.rename({b_: 'fresh name'}).rename({a_: b_})
+            pmap = {a_: b_, b_: 'fresh name'}
+        else:
+            ds3 = ds2.rename({a_: 'posterior of ' + a_})
+            pmap = {a_: 'posterior of ' + a_}
+        if rng.random() < 0.5:
+            pmap = dict(reversed(list(pmap.items())))
+        try:
+            pw3 = chi.compute_pointwise_loglikelihood(
+                ll, ds3, individual=who, param_map=pmap)
+        except Exception as e:      # noqa
+            ctx.violation_exc('pointwise_readback_raises', e,
+                              {'case': feats, 'param_map': pmap}, feats)
+            return
+        ctx.count('pointwise_readbacks_with_param_map')
+        if not np.allclose(pw3.values, pw.values, rtol=1e-12,
+                           equal_nan=True):
+            ctx.violation('readback_selects_matching_columns',
+                          'pointwise_wrong_columns_with_param_map:' + kind_m,
+                          {'param_map': pmap}, feats)
+            return
 
 
 def optimisation_case(ctx, rng, idx):
